@@ -261,6 +261,9 @@ def ob_ppt_general(dA, dB, sys, dim_form, tol_mode):
                       neg=lambda exp: [neg(exp[0]), exp[1]])
 
 
+ZERO_MARGIN = 1e-11     # tol = 0: eigenvalues this close to 0 are numerically undecidable, outside the claim
+
+
 def ob_ppt_spectral(dA, dB, sys, basis, tol_mode):
     """rho = PT_sys(Q diag(lam) Q^T) with a fixed rational orthogonal Q and symbolic lam: the spectrum of the partial transpose
     is lam (kernel contract stated for this matrix), so the verdict must be (min lam >= -tol)."""
@@ -275,7 +278,7 @@ def ob_ppt_spectral(dA, dB, sys, basis, tol_mode):
         return d
 
     def tol_of(i):
-        return i["tol"] if tol_mode == "given" else SQRT_EPS
+        return i["tol"] if tol_mode == "given" else (0.0 if tol_mode == "zero" else SQRT_EPS)
 
     def rho_of(i):
         return pt_explicit(q_diag_qt(Q, i["lam"]), dA, dB, sys)    # the partial transpose is an involution
@@ -284,6 +287,8 @@ def ob_ppt_spectral(dA, dB, sys, basis, tol_mode):
         rho = rho_of(i)
         if tol_mode == "given":
             return [is_ppt(rho, sys, [dA, dB], i["tol"]), is_npt(rho, sys, [dA, dB], i["tol"])]
+        if tol_mode == "zero":       # an explicit tolerance of exactly 0 (int and float forms) is a tolerance, not "use the default"
+            return [is_ppt(rho, sys, [dA, dB], 0.0), is_npt(rho, sys, [dA, dB], 0)]
         return [is_ppt(rho, sys, [dA, dB]), is_npt(rho, sys, [dA, dB])]
 
     def oracle(i):
@@ -303,17 +308,24 @@ def ob_ppt_spectral(dA, dB, sys, basis, tol_mode):
             tot_w, tot_l = tot_w + w[k], tot_l + lam[k]
         facts.append(tot_w.eq_solver(tot_l))
         facts += [x <= 4 for x in lam] + [x >= -4 for x in lam]
-        facts += [(x + tol >= MARGIN * tol) | (x + tol <= -MARGIN * tol) for x in lam]
+        if tol_mode == "zero":
+            facts += [(x >= ZERO_MARGIN) | (x <= -ZERO_MARGIN) for x in lam]
+        else:
+            facts += [(x + tol >= MARGIN * tol) | (x + tol <= -MARGIN * tol) for x in lam]
         if tol_mode == "given":
             facts += [i["tol"] > 0, i["tol"] <= 1]
         return facts
 
     def valid(ni):
         t = tol_of(ni)
+        if tol_mode == "zero":
+            return all(abs(x) <= 4 and abs(x) >= ZERO_MARGIN for x in ni["lam"])
         return (tol_mode != "given" or 0 < t <= 1) and all(abs(x) <= 4 and abs(x + t) >= MARGIN * t for x in ni["lam"])
 
     def witness():
         out = []
+        if tol_mode == "zero":
+            return [{"lam": [1.0] * (n - 1) + [x]} for x in (-1e-9, -1e-10, -1e-6, 1e-9, 0.5)]
         for t in ([1e-3, 1e-6, 1e-10] if tol_mode == "given" else [SQRT_EPS]):
             for c in (0.25, 0.75, 1.5):
                 d = {"lam": [1.0] * (n - 1) + [-c * t]}
@@ -889,7 +901,7 @@ def obligations(tier):
     for dA, dB in [(2, 2), (2, 3)] + ([(3, 3)] if T else []):
         for sys in (1, 2):
             for basis in ("identity", "householder(1..1)"):
-                for tol_mode in ("default", "given"):
+                for tol_mode in ("default", "given") + (("zero",) if basis == "identity" else ()):
                     obs.append(ob_ppt_spectral(dA, dB, sys, basis, tol_mode))
     # separable ball
     for n in [2, 3, 4, 6] + ([8, 9] if T else []):
